@@ -261,6 +261,7 @@ func TestRegistryRandom(t *testing.T) {
 	// Stop while a poll is in progress (both registries, a few poll frequencies)
 	for k2 := 0; k2 < 6; k2++ {
 		k2 := k2
+		variant := "stop" // (a second Stop or a Start meanwhile: TestRegistryStopOverlap, in real time)
 		var line J
 		func() {
 			defer func() { recover() }()
@@ -344,7 +345,7 @@ func TestRegistryRandom(t *testing.T) {
 				default:
 				}
 				mu.Lock()
-				line = J{"ev": "StopRace", "trace": 100000 + k2, "returnedwhilepolling": whilePolling, "late": late, "returnedafter": after, "kind": []string{"gometrics", "datadog"}[k2%2]}
+				line = J{"ev": "StopRace", "trace": 100000 + k2, "returnedwhilepolling": whilePolling, "late": late, "returnedafter": after, "kind": []string{"gometrics", "datadog"}[k2%2], "variant": variant}
 				kill = true
 				mu.Unlock()
 				for g := 0; g < 4; g++ {
@@ -358,4 +359,121 @@ func TestRegistryRandom(t *testing.T) {
 		}
 	}
 	_ = fmt.Sprint
+}
+
+// TestRegistryStopOverlap runs, in real time, a second Stop or a Start while a first Stop waits for a poll in progress (a
+// gauge supplier that has not returned): the second Stop waits as well, the first Stop returns once the poll is over
+// whatever else was called meanwhile, and a Start that overlapped leaves exactly one poller, which the next Stop ends.
+func TestRegistryStopOverlap(t *testing.T) {
+	w := newNdWriter(t, filepath.Join(outDir(t), "registry_overlap_trace.ndjson"))
+	defer w.close()
+	gometrics.NewTimer().Stop()
+	k := 0
+	for _, kind := range []string{"gometrics", "datadog"} {
+		for _, variant := range []string{"stop+stop", "stop+start"} {
+			var reg core.MetricRegistry
+			if kind == "gometrics" {
+				rr, err := gmreg.NewGoMetricsMetricRegistry(gometrics.NewRegistry(), "", "x.", 3*time.Millisecond)
+				if err != nil {
+					t.Fatal(err)
+				}
+				reg = rr
+			} else {
+				cl, err := statsd.NewWithWriter(&nopCloser{}, statsd.WithoutTelemetry())
+				if err != nil {
+					t.Fatal(err)
+				}
+				defer cl.Close()
+				rr, err := ddreg.NewMetricRegistryWithClient(cl, "x.", 3*time.Millisecond)
+				if err != nil {
+					t.Fatal(err)
+				}
+				reg = rr
+			}
+			var mu sync.Mutex
+			hold, inPollCh := make(chan struct{}), make(chan struct{})
+			inPoll, anyStopReturned, polling := false, false, 0
+			reg.RegisterGauge("a", func() (float64, bool) {
+				mu.Lock()
+				first := !inPoll
+				inPoll = true
+				polling++
+				mu.Unlock()
+				if first {
+					close(inPollCh)
+					<-hold
+				}
+				mu.Lock()
+				polling--
+				mu.Unlock()
+				return 1, true
+			})
+			reg.Start()
+			select {
+			case <-inPollCh:
+			case <-time.After(2 * time.Second):
+				t.Fatalf("%s: the poller never polled", kind)
+			}
+			stop1, startDone := make(chan struct{}), make(chan struct{})
+			go func() {
+				reg.Stop()
+				mu.Lock()
+				anyStopReturned = true
+				mu.Unlock()
+				close(stop1)
+			}()
+			time.Sleep(20 * time.Millisecond)
+			if variant == "stop+stop" {
+				go func() {
+					reg.Stop()
+					mu.Lock()
+					anyStopReturned = true
+					mu.Unlock()
+				}()
+			} else {
+				go func() { reg.Start(); close(startDone) }()
+			}
+			time.Sleep(30 * time.Millisecond)
+			mu.Lock()
+			whilePolling := anyStopReturned // a Stop has returned although the poller is still inside its poll
+			mu.Unlock()
+			close(hold)
+			after := false
+			select {
+			case <-stop1:
+				after = true
+			case <-time.After(2 * time.Second):
+			}
+			if variant == "stop+start" {
+				// the Start that overlapped takes effect after the first Stop: let it, before the registry is stopped for good
+				select {
+				case <-startDone:
+				case <-time.After(2 * time.Second):
+					after = false
+				}
+			}
+			// whatever is running now is ended by one more Stop; afterwards nothing polls
+			lastStop := make(chan struct{})
+			go func() { reg.Stop(); close(lastStop) }()
+			select {
+			case <-lastStop:
+			case <-time.After(2 * time.Second):
+				after = false
+			}
+			time.Sleep(15 * time.Millisecond)
+			mu.Lock()
+			before := polling
+			mu.Unlock()
+			late := 0
+			cnt := 0
+			probe := func() (float64, bool) { cnt++; return 1, true }
+			reg.RegisterGauge("late", probe)
+			time.Sleep(20 * time.Millisecond)
+			mu.Lock()
+			late = cnt + before
+			mu.Unlock()
+			w.write(J{"ev": "StopRace", "trace": 200000 + k, "returnedwhilepolling": whilePolling, "late": late, "returnedafter": after, "kind": kind, "variant": variant})
+			k++
+		}
+	}
 }
